@@ -2,32 +2,45 @@
 From Libfuncs Require Export CStmt.
 Ltac Zify.zify_post_hook ::= Z.div_mod_to_equations.
 
-Lemma In_zrange n x : 0 <= x < Z.of_nat n -> In x (zrange n).
+Lemma In_zrange lo n x : lo <= x < lo + Z.of_nat n -> In x (zrange lo n).
 Proof.
-  intros H. unfold zrange. apply in_map_iff. exists (Z.to_nat x). split; [lia|].
+  intros H. unfold zrange. apply in_map_iff. exists (Z.to_nat (x - lo)). split; [lia|].
   apply in_seq. lia.
 Qed.
 
-Lemma opt_eqb_eq o v : opt_eqb o v = true -> o = Some v.
-Proof. destruct o as [x|]; cbn; [|discriminate]. intros H. apply Z.eqb_eq in H. congruence. Qed.
-
-Lemma uarith_chk_ok op w c entry a b :
-  uarith_chk op w c entry a b = true -> uarith_post op w a b (run_honest c entry 64 [RC0; a; b]).
+Lemma outs_eqb_eq l o : outs_eqb l o = true -> l = map Some o.
 Proof.
-  unfold uarith_chk, uarith_post.
-  destruct (run_honest c entry 64 [RC0; a; b]) as [[s' m']|e]; [|discriminate].
-  intros H. exists s', m'. split; [reflexivity|].
-  apply andb_prop in H. destruct H as [H1 H2]. split; [apply opt_eqb_eq; exact H1|].
-  destruct (op w a b); apply andb_prop in H2; destruct H2 as [H2 H3];
-    split; apply opt_eqb_eq; assumption.
+  revert o. induction l as [|[x|] r IH]; intros [|y s]; cbn [outs_eqb map]; try discriminate.
+  - reflexivity.
+  - intros H. apply andb_prop in H. destruct H as [H1 H2]. apply Z.eqb_eq in H1. subst y.
+    f_equal. apply IH. exact H2.
 Qed.
 
-(* a complete sweep of the 2^8 x 2^8 operand pairs proves the statement for the 8-bit type *)
-Lemma uarith_sweep8 op c entry :
-  forallb (fun a => forallb (uarith_chk op 8 c entry a) (zrange 256)) (zrange 256) = true ->
-  uarith_complete op 8 c entry.
+Lemma run_chk_ok c entry args outs : run_chk c entry args outs = true -> run_outputs c entry args outs.
 Proof.
-  intros H a b Ha Hb. apply uarith_chk_ok.
-  rewrite forallb_forall in H. specialize (H a (In_zrange 256 a ltac:(unfold in_u in Ha; lia))).
-  rewrite forallb_forall in H. apply H. apply In_zrange. unfold in_u in Hb. lia.
+  unfold run_chk, run_outputs.
+  destruct (outputs (run_honest c entry 200 args) (List.length outs)) as [l|]; [|discriminate].
+  intros H. f_equal. apply outs_eqb_eq. exact H.
 Qed.
+
+(* a complete sweep of the finite operand domain proves the statement *)
+Lemma sweep1_complete lo n sp c entry :
+  sweep1 lo n sp c entry = true -> complete1 lo (lo + Z.of_nat n) sp c entry.
+Proof.
+  intros H a Ha. apply run_chk_ok. unfold sweep1 in H. rewrite forallb_forall in H.
+  apply H. apply In_zrange. exact Ha.
+Qed.
+Lemma sweep2_complete lo n nz sp c entry :
+  sweep2 lo n nz sp c entry = true -> complete2 lo (lo + Z.of_nat n) nz sp c entry.
+Proof.
+  intros H a b Ha Hb Hnz. apply run_chk_ok. unfold sweep2 in H. rewrite forallb_forall in H.
+  specialize (H a (In_zrange _ _ _ Ha)). rewrite forallb_forall in H.
+  specialize (H b (In_zrange _ _ _ Hb)). apply orb_prop in H. destruct H as [H|H]; [|exact H].
+  apply andb_prop in H. destruct H as [H1 H2]. apply Z.eqb_eq in H2. specialize (Hnz H1). contradiction.
+Qed.
+
+(* the 8-bit domains: [0, 2^8) and [-2^7, 2^7) *)
+Ltac sweep_u8_2 := apply (sweep2_complete 0 256); vm_cast_no_check (eq_refl true).
+Ltac sweep_i8_2 := apply (sweep2_complete (-128) 256); vm_cast_no_check (eq_refl true).
+Ltac sweep_u8_1 := apply (sweep1_complete 0 256); vm_cast_no_check (eq_refl true).
+Ltac sweep_i8_1 := apply (sweep1_complete (-128) 256); vm_cast_no_check (eq_refl true).
